@@ -9,7 +9,7 @@ ALT = {'container': [(['Rootfs=/var/lib/rootfs'], ('Image',)), (['Rootfs=/var/li
        'build': [(['ImageTag=localhost/t', 'SetWorkingDirectory=/opt/ctx'], ('File',))]}
 VALS = ['k=1 k=2', 'a=1 b=2 a=3', '-/dev/null:/dev/n:rwm', '-/dev/null:/dev/n', '/dev/null:/dev/n:rwm', '-/dev/nope:/dev/n:rwm', 'x', 'a b', '"a b"', "'q'", 'yes', 'no', 'true', '0', '', 'k=v', 'k=v l=w', '"k=v w" z=1', 'a:b', 'a:b:c:d', '/abs/p', './rel/p', '../up',
         '%h/x', '10', '1-2/tcp', 'é', 'a\\nb', 'a\\x41', 'auto', 'manual', 'keep-id', 'image', 'x.volume:/d', 'type=bind,source=./s,target=/t',
-        'type=tmpfs,dst=/x', 'foo.network', 'host', 'none:opt', 'oneshot', 'notify', 'mixed', 'healthy', 'yaml', 'unit', 'file', 'registry',
+        'type=tmpfs,dst=/x', 'type=glob,src=./conf/*.cfg,dst=/etc/app', 'type=image,source=./img,dst=/i', 'type=volume,src=./v,dst=/m', 'type=devpts,dst=/dev/pts', 'foo.network', 'host', 'none:opt', 'oneshot', 'notify', 'mixed', 'healthy', 'yaml', 'unit', 'file', 'registry',
         '-/dev/null', '-/dev/nope:rw', 'CAP_X y', 'a,b', 'a=b=c', '%%x', 'x y  z', '1000', 'keep-id:uid=1', 'local', 'nfs', '10.0.0.0/24',
         # the empty string in its quoted spellings, and a repeated word
         '""', "''", 'w w', 'a.yml a.yml ./a.yml']
@@ -190,15 +190,21 @@ def unit_set(rnd):
                 L.append('Volume=' + ref('volume') + ':/b')
             if rnd.random() < 0.4:
                 L.append('Network=' + ref('network') + rnd.choice(['', '', ':ip=10.1.1.1', ':mac=92:d0:c6:0a:29:33']))
+            if rnd.random() < 0.15:
+                L.append('Network=' + ref('container'))     # (every unit type with a Network= key may join a container's network)
         elif ty == 'kube':
             L.append('Yaml=/opt/k.yaml')
             if rnd.random() < 0.5:
                 L.append('Network=' + ref('network') + rnd.choice(['', '', ':ip6=fd00::5']))
+            if rnd.random() < 0.2:
+                L.append('Network=' + ref('container'))
         elif ty == 'pod':
             if rnd.random() < 0.3:
                 L += named('PodName', 'pn-' + st)
             if rnd.random() < 0.4:
                 L.append('Network=' + ref('network') + rnd.choice(['', '', ':mac=92:d0:c6:0a:29:33,ip=1.2.3.4']))
+            if rnd.random() < 0.2:
+                L.append('Network=' + ref('container'))
             if rnd.random() < 0.4:
                 L.append('Volume=' + ref('volume') + rnd.choice([':/p', ':/p:ro:z']))
         files[st + '.' + ty] = '\n'.join(L) + '\n'
